@@ -91,7 +91,7 @@ def urlH : Handler := fun inp impl => do
   let reqid := canonKey (optStr cfg "reqid")
   let dropId (l : List (String × String)) : List (String × String) := if reqid = "" then l else l.filter (·.1 ≠ reqid)
   let hdrs := hdr0.map (fun kv => (canonKey kv.1, kv.2)) ++
-    (if ws then [("Upgrade", "websocket"), ("Connection", "Upgrade")] else [])
+    (if ws then [("Upgrade", if optStr inp "upg" = "" then "websocket" else optStr inp "upg"), ("Connection", "Upgrade")] else [])
   let t : Target := { strip := strip, prepend := prepend, hostOpt := hostOpt, host := "UPSTREAM", rawQuery := tq }
   -- the implementation's record, canonicalised
   let implStatus := (impl.getObjValAs? Int "status").toOption.getD (-1)
@@ -269,12 +269,15 @@ def norouteH : Handler := fun inp impl => do
   let html ← str inp "html"
   let method ← str inp "method"
   let isMatch ← bool inp "match"
+  -- the page store (`noroute/store.go`, `Model.C07Chain.Store`): whatever was set before, the last `SetHTML` counts
+  let prev := ((arr inp "prev").toOption.getD #[]).toList.filterMap fun j => match j with | Json.str p => some p | _ => none
+  let page := ((prev ++ [html]).foldl Fabio.Model.C07Chain.Store.set {}).get
   let r : Req Unit := { method := method, url := {}, host := "", headers := [], body := () }
   let t : Option Target := if isMatch then some { host := "UPSTREAM" } else none
   let ci := if isPanic impl then Json.mkObj [("panic", true)] else impl
   let mk (interim : List Int) (st : Int) (body : String) (hits : Int) : Json :=
     Json.mkObj [("status", st), ("interim", Json.arr (interim.map (fun (i : Int) => (i : Json))).toArray), ("body", body), ("hits", hits)]
-  match serve status html t r with
+  match serve status page t r with
   | .noRoute s page =>
     let (interim, final, body) := renderNoRoute method s page
     let m := mk interim final body 0
